@@ -19,7 +19,9 @@ CLAIMS = {
     "C40": ("def-use analysis of the HASH_TYPE_ID_STYLE arm of write_context::get_id_for_type",
             "a hash-style id is the formatted fnv_hash of the type's internal pretty representation, only "
             "incremented while probing a per-writer member set; no counter, address or static state flows into it; "
-            "R-IDUNIQ: the value formatted into the id was successfully inserted into that set on every path",
+            "R-IDUNIQ: the value formatted into the id was successfully inserted into that set on every path; "
+            "R-INTERNALFLAG: every nested name computation reachable while an internal name is built in abg-ir.cc is itself "
+            "asked for the internal flavour (no numbered anonymous name inside an internal name)",
             "ids of colliding types depend on emission order (the property's own proviso)",
             "§3 R-HASHID; §4 C40"),
     "C42": ("compile-fail witnesses (type-level encoding: private constructor + friend) and AST shape obligations on "
@@ -237,7 +239,8 @@ CLAIMS = {
             "compared after exchanging first_ <-> second_",
             "both halves look the interface's symbol up in the other corpus; any lookup / version treatment present in "
             "one half only is reported (today: the default-version rule of the addition half, four recorded findings "
-            "replayed with versioned vs unversioned exports)",
+            "replayed with versioned vs unversioned exports); R-MIRROR/GUARD: a mirrored lookup runs under the same "
+            "conditions in both halves",
             "the edit scripts and the matching of changed interfaces (runtime); the same set of changed interfaces in "
             "both directions",
             "§8.6 (added after the design: C11 was first declared not applicable)"),
@@ -245,13 +248,18 @@ CLAIMS = {
             "keep-list filter of corpus::exported_decls_builder",
             "the libraries' keep-lists are fed only from the application's undefined symbols, for both library versions "
             "alike, and applied (maybe_drop_some_exported_decls) on every feasible path before compute_diff; an empty "
-            "keep-list must not mean `keep everything` (it does, for both kinds: two recorded, replayed findings)",
+            "keep-list must not mean `keep everything` (decided by interpreting the filter in the empty-list world; it does, "
+            "for both kinds: two recorded, replayed findings); R-USEDONLY/MATCH: every consumer of the keep-lists matches a "
+            "kept id by (name, version), never by id-string equality with a library symbol (two sites found on the base "
+            "tree, replayed and repaired)",
             "which interfaces the undefined symbols resolve to; weak mode's type comparison (runtime)",
             "§8.6 (added after the design: C29 was first declared not applicable)"),
     "C13": ("control-dependence rule over the stores into the atoms of corpus_diff::has_incompatible_changes",
             "no counter that decides the INCOMPATIBLE bit is computed under the report-mode dependent filter "
             "diff::is_filtered_out(); two atoms are (recorded, replayed findings: a vtable change that the default mode "
-            "filters as redundant loses the bit that --leaf-changes-only sets)",
+            "filters as redundant loses the bit that --leaf-changes-only sets); R-SIMILARLEAF: for the type kinds whose "
+            "diff nodes the leaf marker drops (pointer, reference, array) types_have_similar_structure compares the kind's "
+            "own attributes also behind a pointer, so that the difference is somebody's local change",
             "agreement of the CHANGE bit (two different predicates over different counters: leaf-node marking, runtime); "
             "the impacted-interfaces clause",
             "§8.6 (added after the design: C13 was first declared not applicable)"),
